@@ -1220,6 +1220,8 @@ namespace bloch::runtime {
                 rc->instanceFields = rc->base->instanceFields;
                 rc->instanceFieldIndex = rc->base->instanceFieldIndex;
                 rc->vtable = rc->base->vtable;
+                // inherited qubit / @tracked fields count like the class's own
+                rc->hasTrackedFields = rc->base->hasTrackedFields;
             }
             for (auto& member : clsNode->members) {
                 if (auto field = dynamic_cast<FieldDeclaration*>(member.get())) {
@@ -1362,6 +1364,7 @@ namespace bloch::runtime {
             rc->instanceFields = rc->base->instanceFields;
             rc->instanceFieldIndex = rc->base->instanceFieldIndex;
             rc->vtable = rc->base->vtable;
+            rc->hasTrackedFields = rc->base->hasTrackedFields;
         }
 
         for (auto& member : tmpl->members) {
